@@ -2,6 +2,7 @@ import SlocModel.Driver.Proto
 import SlocModel.Driver.Threshold
 import SlocModel.Driver.Counter
 import SlocModel.Driver.Toml
+import SlocModel.Driver.Trend
 open SlocModel.Driver
 
 def dispatch (line : String) : String :=
@@ -18,6 +19,10 @@ def dispatch (line : String) : String :=
       | "nesting" => handleNesting args
       | "noop" => some "-"
       | "langs" => handleLangs args
+      | "trend-step" => handleTrendStep args
+      | "retain" => handleRetain args
+      | "trend-delta" => handleTrendDelta args
+      | "duration" => handleDuration args
       | "extends" => handleExtends args
       | "merge" => handleMerge args
       | "finish" => handleFinish args
